@@ -34,14 +34,20 @@ MODEL_MODULES = ["PyrollModel.Gen.C03", "PyrollModel.Gen.C03Groove", "PyrollMode
 RULE = ("for each of the 21 public parametric groove classes x each admissible defining subset (75 combinations; 60 draws each in "
         "the quick tier, 180 for single-subset classes) x {direct constructor 70 %, by-name factory under a random documented "
         "spelling 30 %}: a feasible geometry is drawn forwards (angles, radii, flank length; pad angle in {0, 30, 45, random}; "
-        "scale log-uniform over 6 decades) and handed over (a) as drawn 35 %, (b) feasibility-biased: 1-3 length parameters "
-        "moved by a factor 10^U(-1.5, 1.5) 45 % - about 60 % of (a)+(b) construct, the rest sit around the feasibility "
-        "boundary -, (c) infeasible/boundary 20 %: one mutation out of {zero, negative, NaN, +inf, negative flank dimension, "
+        "scale log-uniform over 6 decades) and handed over (a) as drawn 30 %, (b) feasibility-biased: 1-3 length parameters "
+        "moved by a factor 10^U(-1.5, 1.5) 40 % - about 60 % of (a)+(b) construct, the rest sit around the feasibility "
+        "boundary -, (d) 10 %: one or two of the OPTIONAL keywords the call may carry (the class's own and, through **kwargs, those "
+        "of the generic constructor: pad, rel_pad, pad_angle, r3, r4, alpha3, alpha4, indent, even_ground_width) at a boundary "
+        "of their range - exactly 0, tiny (1e-12 ... 1e-9 of the scale), explicitly the default - and the face padding in every "
+        "combination of its two keywords (rel_pad = 0, pad = 0 with rel_pad = 0, pad = 0 alone, both given, tiny, explicit "
+        "default), (c) infeasible/boundary 20 %: one mutation out of {zero, negative, NaN, +inf, negative flank dimension, "
         "flank angle 0 / 90 deg / beyond, tip angle > 180 deg, depth too small for the radii, radius too large for the width, "
         "1e-12 / 1e12 scaling of one length, defining value or required parameter dropped, surplus defining value (consistent or "
         "contradictory), usable_width == ground_width}. A case = one constructor call; non-trivial = an object came back and "
         "was checked, or the input was unrealisable on its face and had to be rejected; distinct by class, subset, route, stream "
-        "and rounded parameters. Plus ~450 ASCII names for the factory's normalisation and 6 spline shape cases.")
+        "and rounded parameters. Plus ~450 ASCII names for the factory's normalisation, 11 spline shape cases and 60 (thorough 600) "
+        "six-vertex spline polylines of extent 1e-3 ... 3000 whose end ordinates / ordinates next to the ends are 0, 0.25 ... 40 x a "
+        "tolerance a face test may have (1e-8 absolute, 1e-9 x extent).")
 ASSUMPTIONS = [
     "IEEE rounding: theorems are over the reals; the Float run of the model is compared with the real junctions/vertices "
     "at rtol 1e-9 (relative to the groove size)",
@@ -50,7 +56,8 @@ ASSUMPTIONS = [
     "scipy root finding is outside the model: for solver-backed classes the model starts from the arguments the class "
     "hands to GenericElongationGroove.__init__ (the solver contract itself is C04's subject)",
     "oracle tolerances: below-face and depth overshoot 1e-7 x groove size (100 x the validator's relative tolerance, "
-    "rounding only); deepest vertex >= depth - (neighbouring vertex spacing)/9 (sagitta of a circle sampled with >= 20 "
+    "rounding only; for GenericElongationGroove itself, whose indent/r3/r4/alpha4 are free inputs, depth overshoot up to the "
+    "0.1 % of depth its validation documents); deepest vertex >= depth - (neighbouring vertex spacing)/9 (sagitta of a circle sampled with >= 20 "
     "z-steps per arc); flank/face meeting point 2e-6/sin^2(flank angle) x size for solver-backed classes (xtol of "
     "hybr/fixed_point x conditioning), 2e-3 x depth for the generic class (the constructor's documented step tolerance); "
     "every absolute allowance + 8 ulp(largest radius) (cancellation in the junction sums when a radius dwarfs the groove)",
@@ -332,6 +339,65 @@ def perturb(rng, kwargs):
     return kw
 
 
+ANGLES = ("pad_angle", "alpha3", "alpha4", "flank_angle", "tip_angle")
+
+
+def optional_keywords(cname):
+    """{name: default} of the optional numeric keywords a call `cname(...)` may carry: those of the class's own signature and,
+    when it forwards `**kwargs`, those of GenericElongationGroove it does not name itself (read off the real signatures)"""
+    import inspect
+
+    def numeric(cls):
+        return {n: q.default for n, q in inspect.signature(cls.__init__).parameters.items()
+                if isinstance(q.default, (int, float)) and not isinstance(q.default, bool)}
+
+    params = inspect.signature(_cls(cname).__init__).parameters
+    out = numeric(_cls(cname))
+    if any(q.kind is q.VAR_KEYWORD for q in params.values()):
+        for n, d in numeric(_cls("GenericElongationGroove")).items():
+            if n not in params:
+                out[n] = d
+    return out
+
+
+def boundary(rng, cname, kwargs, scale):
+    """-> (kwargs, kind).  A feasible draw with one or two OPTIONAL keywords at a boundary of their range: exactly 0, tiny
+    (1e-12 ... 1e-9 of the groove's scale), explicitly the default; the face padding, which can be given in two ways (`pad`
+    absolute, `rel_pad` relative to the usable width, `pad` wins unless 0), additionally in every combination of the two.
+    Nothing here is unrealisable on its face: 'reject or well-formed'."""
+    opt = optional_keywords(cname)
+    kw = dict(kwargs)
+
+    def value(k, how):
+        unit = 1.0 if k in ANGLES or k == "rel_pad" else scale
+        return {"zero": 0.0, "tiny": unit * 10 ** rng.uniform(-12, -9), "default": float(opt[k])}[how]
+
+    if "pad" in opt and "rel_pad" in opt and rng.random() < 0.5:
+        mode = rng.choice(["rel-zero", "both-zero", "pad-zero", "both-given", "rel-tiny", "pad-tiny", "rel-default",
+                           "pad-zero-rel-default", "pad-given-rel-zero"])
+        kw.pop("pad", None)
+        if mode in ("both-zero", "pad-zero", "pad-zero-rel-default"):
+            kw["pad"] = 0.0
+        if mode in ("rel-zero", "both-zero", "pad-given-rel-zero"):
+            kw["rel_pad"] = 0.0
+        if mode in ("both-given", "pad-given-rel-zero"):
+            kw["pad"] = scale * rng.uniform(0.05, 0.5)
+        if mode == "both-given":
+            kw["rel_pad"] = rng.uniform(0.01, 0.5)
+        if mode == "rel-tiny":
+            kw["rel_pad"] = value("rel_pad", "tiny")
+        if mode == "pad-tiny":
+            kw["pad"] = value("pad", "tiny")
+        if mode in ("rel-default", "pad-zero-rel-default"):
+            kw["rel_pad"] = value("rel_pad", "default")
+        return kw, "padding-" + mode
+    names = sorted(opt)
+    how = rng.choice(["zero", "tiny", "default"])
+    for k in rng.sample(names, min(len(names), rng.choice([1, 1, 2]))):
+        kw[k] = value(k, how)
+    return kw, "optional-" + how
+
+
 def infeasible(rng, cname, subset, fixed, vals):
     """-> (kwargs, kind, must_reject).  One mutation of a feasible draw.  `must_reject`: the input is unrealisable on its
     face (property text: negative flank length, undercut flanks, non-finite or negative dimensions, too many or too few
@@ -443,6 +509,7 @@ def instrumented(log):
         log.generic_calls.append(rec)
         return orig(self, *a, **k)
 
+    wrapper.__signature__ = sig         # `optional_keywords` reads the signatures while the wrapper is installed
     G.__init__ = wrapper
     try:
         yield
@@ -572,7 +639,13 @@ def check_wellformed(ctx, cname, tag, kwargs, g, route):
         top = float(yi[i])
         gap = max(z[i] - z[i - 1] if i > 0 else 0.0, z[i + 1] - z[i] if i + 1 < len(z) else 0.0)
         sag = abs(gap) / 9 + eps
-        if top > depth + eps:
+        # a class that works out the constriction itself puts the apex at `depth` up to rounding.  The generic class takes
+        # indent / r3 / r4 / alpha4 as they come (nothing ties `indent` to `(r3 + r4)(1 - cos alpha4)`) and states its own
+        # notion of "at depth": apex within 0.1 % of `depth` (validation `test_contour_points`; the bound theorem
+        # `construct_ok_wellformed` carries).  An overshoot inside that band is what the class promises, not a defect
+        # (first seen: thorough run, `indent` 6 % below the apex condition on a groove 10 x deeper than its radii, + 0.029 %).
+        over = eps + (1e-3 * abs(depth) if cname in RADIANS else 0.0)
+        if top > depth + over:
             viol("deeper-than-depth", f"vertex {i} = ({z[i]}, {top}) is deeper than depth = {depth}")
         elif top < depth - sag:
             viol("depth-not-reached", f"the deepest vertex inside the usable width is {top}, depth = {depth} "
@@ -1016,30 +1089,98 @@ def _name_stream(ctx, corr, n):
             setattr(G, c, v)
 
 
-def _spline_stream(ctx, corr):
-    """SplineGroove.__init__ shape checks (the class itself is C10's subject; here only accept/reject of the shape)"""
+SPLINE_SHAPES = [
+    (2, [[-2.0, 0.0], [-1.0, 1.0], [1.0, 1.0], [2.0, 0.0]]),
+    (1, [[0.0, 1.0, 2.0]]),
+    (2, [[-2.0, 0.0, 0.0], [0.0, 1.0, 0.0], [2.0, 0.0, 0.0]]),
+    (2, [[-2.0, 0.5], [0.0, 1.0], [2.0, 0.0]]),
+    (2, [[-2.0, 0.0], [0.0, 1.0], [2.0, 0.3]]),
+    (2, [[-2.0, 1e-9], [-1.0, 1.0], [1.0, 1.0], [2.0, -1e-9]]),
+    # the face tolerance a source may have is absolute (1e-8) or relative to the extent (1e-9 x): a contour of 4 mm in
+    # metres and one of 4 m in millimetres, ends a little off the face line either way
+    (2, [[-2e-3, 3e-9], [-1e-3, 1e-3], [1e-3, 1e-3], [2e-3, 0.0]]),
+    (2, [[-2e3, 0.0], [-1e3, 1e3], [1e3, 1e3], [2e3, -3e-7]]),
+    (2, [[-2e3, 0.0], [-1e3, 1e3], [1e3, 1e3], [2e3, 5e-5]]),
+    # a non-finite vertex in between (the extent, hence a relative tolerance, is NaN then)
+    (2, [[-2.0, 0.0], [-1.0, NAN], [1.0, 1.0], [2.0, 0.0]]),
+    (2, [[-2.0, 0.0], [NAN, 1.0], [1.0, 1.0], [2.0, 0.0]]),
+]
+SPLINE_FACTORS = [0.0, 0.25, 0.5, 0.9, 1.1, 2.0, 4.0, 40.0]
+
+
+def _spline_boundary_case(rng):
+    """a six-vertex polyline `end, inner, top, top, inner, end` of extent L (1e-3 ... 3000 length units, not near 10 where
+    1e-8 and 1e-9 x extent coincide; the larger extent is the width or the height) whose end ordinates and the ordinates
+    next to them are a small factor below / above a tolerance the face test may have (1e-8, or 1e-9 x extent)"""
+    import numpy as np
+    while True:
+        L = 10 ** rng.uniform(-3.0, 3.5)
+        if not 2.0 < L < 50.0:
+            break
+    if rng.random() < 0.7:
+        w, H = L / 2, L * rng.uniform(0.05, 0.6)         # extent = width
+    else:
+        w, H = L * rng.uniform(0.1, 0.45), L             # extent = height
+    shift = rng.uniform(-1.0, 1.0) * L * rng.choice([0.0, 1.0])
+    xs = [shift + f * w for f in (-1.0, -0.8, -0.5, 0.5, 0.8, 1.0)]
+    rows = [[x, y] for x, y in zip(xs, (0.0, 0.0, H, H, 0.0, 0.0))]
+    extent = float(np.max(np.ptp(np.asarray(rows), axis=0)))
+    tol = rng.choice([1e-8, 1e-9 * extent])
+    where = rng.choice(["first", "last", "both", "inner", "all", "none"])
+    fs = {}
+    for k, idx in (("first", 0), ("inner0", 1), ("inner1", 4), ("last", 5)):
+        on = where in ("both", "all") and k in ("first", "last") or where == k or where in ("inner", "all") and k.startswith("inner")
+        f = rng.choice(SPLINE_FACTORS[4:] if on and rng.random() < 0.6 else SPLINE_FACTORS[:4] if not on else SPLINE_FACTORS)
+        fs[k] = f
+        rows[idx][1] = rng.choice([-1.0, 1.0]) * f * tol
+    return rows, extent, fs
+
+
+def _spline_stream(ctx, corr, only=None):
+    """SplineGroove.__init__ shape checks (the class itself is C10's subject; here only accept/reject of the shape):
+    fixed shape cases + the boundary of the face test.  K: the model (with the face test read from the source) must accept /
+    reject like the real constructor.  Oracle (property text): a contour with an end far off the face line (> 1e-3 x extent)
+    is not a groove contour and must be rejected; a well-shaped finite contour whose ends lie exactly on the face line must
+    not be refused by a shape check."""
+    import numpy as np
     from pyroll.core.grooves import SplineGroove
-    cases = [
-        (2, [[-2.0, 0.0], [-1.0, 1.0], [1.0, 1.0], [2.0, 0.0]]),
-        (1, [[0.0, 1.0, 2.0]]),
-        (2, [[-2.0, 0.0, 0.0], [0.0, 1.0, 0.0], [2.0, 0.0, 0.0]]),
-        (2, [[-2.0, 0.5], [0.0, 1.0], [2.0, 0.0]]),
-        (2, [[-2.0, 0.0], [0.0, 1.0], [2.0, 0.3]]),
-        (2, [[-2.0, 1e-9], [-1.0, 1.0], [1.0, 1.0], [2.0, -1e-9]]),
-    ]
-    for ndim, rows in cases:
+    cases = [(nd, rows, "shape") for nd, rows in SPLINE_SHAPES] if only is None else only
+    for _ in range(ctx.budget(60, 600) if only is None else 0):
+        rows, extent, fs = _spline_boundary_case(ctx.rng)
+        cases.append((2, rows, "boundary"))
+    for ndim, rows, kind in cases:
         arg = rows[0] if ndim == 1 else rows
         try:
             with warnings.catch_warnings():
                 warnings.simplefilter("ignore")
                 SplineGroove(arg, classifiers=[])
             ok = True
-        except ValueError as ex:
-            if not traceback.extract_tb(ex.__traceback__)[-1].filename.endswith("spline.py"):
-                continue                # raised further down (shapely): not one of the shape checks
+        except Exception as ex:
+            tb = traceback.extract_tb(ex.__traceback__)
+            if not any(f.filename.endswith(os.path.join("grooves", "spline.py")) for f in tb):
+                raise                   # raised by the harness itself
+            if not (isinstance(ex, ValueError) and tb[-1].filename.endswith("spline.py")):
+                ctx.count("spline:raised-further-down")
+                continue                # raised further down (shapely, scipy): not one of the shape checks
             ok = False
         ctx.case(["spline", ndim, rows])
-        corr.spline_case(ndim, rows, ok)
+        ctx.count(f"spline:{kind}:" + ("accepted" if ok else "rejected"))
+        well_shaped = ndim == 2 and len(rows) >= 3 and all(len(r) == 2 for r in rows) \
+            and all(math.isfinite(v) for r in rows for v in r)
+        if well_shaped:
+            a = np.asarray(rows, dtype=float)
+            extent = float(np.max(np.ptp(a, axis=0)))
+            ends = max(abs(rows[0][1]), abs(rows[-1][1]))
+            if (ends <= 1e-8) != (ends <= 1e-9 * extent):
+                ctx.count("spline:between-absolute-and-relative-tolerance")
+            if ok and ends > 1e-3 * extent:
+                ctx.violation("accepted:spline-open-end", f"SplineGroove accepts a contour whose end ordinate {ends!r} is far off "
+                              f"the face line (extent {extent!r})", {"class": "SplineGroove", "ndim": ndim, "rows": rows})
+            if not ok and ends == 0.0:
+                ctx.violation("rejected:spline-ends-on-face", "SplineGroove's shape checks refuse a finite two-column contour "
+                              "whose first and last ordinate are exactly 0", {"class": "SplineGroove", "ndim": ndim, "rows": rows})
+        if ctx.model_available:
+            corr.spline_case(ndim, rows, ok)
 
 
 def run(ctx):
@@ -1065,11 +1206,14 @@ def run(ctx):
                     kw = dict(fixed, **{k: vals[k] for k in subset})
                     r = rng.random()
                     stream, must = "feasible", False
-                    if r < 0.45:
+                    if r < 0.40:
                         kw, stream = perturb(rng, kw), "perturbed"
-                    elif r < 0.65:
+                    elif r < 0.60:
                         kw, k, must = infeasible(rng, cname, subset, fixed, vals)
                         stream = "infeasible:" + k.split(":")[0]
+                    elif r < 0.70:
+                        kw, k = boundary(rng, cname, kw, info["scale"])
+                        stream = "boundary:" + k
                     via = kind = None
                     if rng.random() < 0.3:
                         via, kind = spelling(rng, cname)
@@ -1086,11 +1230,12 @@ def run(ctx):
                                      f"geometries given as {subset}", {"class": cname, "subset": list(subset)})
     if ctx.model_available:
         _name_stream(ctx, corr, ctx.budget(300, 6000))
-        _spline_stream(ctx, corr)
+    _spline_stream(ctx, corr)
+    if ctx.model_available:
         corr.flush()
-    built = sum(v for k, v in ctx.histogram.items() if k.startswith("stream:") and k.endswith(":constructed")
-                and not k.startswith("stream:infeasible"))
-    total = sum(v for k, v in ctx.histogram.items() if k.startswith("stream:") and not k.startswith("stream:infeasible"))
+    biased = lambda k: k.startswith(("stream:feasible:", "stream:perturbed:", "stream:corpus:"))
+    built = sum(v for k, v in ctx.histogram.items() if biased(k) and k.endswith(":constructed"))
+    total = sum(v for k, v in ctx.histogram.items() if biased(k))
     ctx.notes["feasibility_biased_stream_constructed"] = f"{built}/{total}"
 
 
@@ -1105,7 +1250,9 @@ def replay(ctx, data):
     corr = Corr(ctx, found)
     log = Log()
     with instrumented(log):
-        if "name" in r and "class" not in r:
+        if "rows" in r:
+            _spline_stream(ctx, corr, only=[(int(r.get("ndim", 2)), r["rows"], "replay")])
+        elif "name" in r and "class" not in r:
             _name_stream(ctx, corr, 0)
         else:
             cname = r["class"]
